@@ -127,7 +127,6 @@ QNameOk(N, x, q) ==
 
 ScopeFieldsBad(N, x, o, e) ==
     LET chk(name, ok) == IF ok THEN {} ELSE {name}
-        real(s) == {b \in s : b[2] # XmlNs}
     IN chk("namespaces_in_scope", PairSet(o.inscope) = InScope(N, x) /\ Len(o.inscope) = Cardinality(InScope(N, x)))
        \cup UNION {chk("namespace_for_prefix:" \o e.pfx[j],
                        LET want == NsForPrefix(N, x, e.pfx[j]) IN
@@ -139,8 +138,8 @@ ScopeFieldsBad(N, x, o, e) ==
                        IF want = {} THEN o.pfn[j][1] = FALSE ELSE o.pfn[j][1] = TRUE /\ o.pfn[j][2] \in want)
                    : j \in 1..Len(e.uris)}
        \* (judged on elements and documents: what "the subtree's names" are for other nodes is not stated)
-       \cup chk("unresolved_namespaces", N[x].k \notin {"elem", "doc"} \/ {o.unres[j] : j \in 1..Len(o.unres)} \ {"", XmlNs} = Unresolved(N, x))
-       \cup chk("inherited_prefixes", N[x].k \notin {"elem", "doc"} \/ real(PairSet(o.inh)) = real(Inherited(N, x)))
+       \cup chk("unresolved_namespaces", N[x].k \notin {"elem", "doc"} \/ {o.unres[j] : j \in 1..Len(o.unres)} = Unresolved(N, x))
+       \cup chk("inherited_prefixes", N[x].k \notin {"elem", "doc"} \/ PairSet(o.inh) = Inherited(N, x))
        \cup (IF N[x].k \in {"elem", "attr"}
              THEN chk("full_name", QNameOk(N, x, o.fnm)) \cup chk("name_ref", QNameOk(N, x, o.nref))
                   \cup chk("node_name_ref", QNameOk(N, x, o.nnref))
